@@ -9,9 +9,32 @@ import absint as AI
 from facts import tokens, fmt, short, walk, strip_sites, op_place, const_int
 
 CRATES = ["sciparse"]
-EXPLANATION = "wip"
-RESIDUAL = []
-ASSUMPTIONS = []
+EXPLANATION = (
+    "The unsafe discipline that makes the view invariant — 'the buffer is at least as long as the size computed from the "
+    "size-determining fields at construction' — impossible to break from safe code, decided on rustc MIR over all 20 view "
+    "types (discovered from `impl View`). (UNS-const) for every view type the minimum length for which has_required_size can "
+    "return Ok is computed from the `len(buf) < C` guards and the delegation chain (Layout::try_from, split_off_checked, "
+    "nested has_required_size); every unchecked bit-range read/write of a view method with a constant range must end within "
+    "that length (146 sites). (UNS-taint) computed ranges may only depend on the view itself, never on a caller-supplied value "
+    "without a guard. (DISPATCH) for every SCMP message type the layout ScmpMessageLayout::try_from_slice validates guarantees at "
+    "least the bytes that the typed view ScmpPayloadView::message()/message_mut() hand out for that type relies on (two "
+    "decision tables extracted from the switch structure). (PAYLOAD-TRUNC, TYPED) the payload slice of a packet view is "
+    "self.1[h .. h + min(payload_len, len - h)]; typed UDP/SCMP packet views validate their L4 header on payload() of the raw "
+    "view over the same bytes, and their accessors re-derive the same L4 view from self.payload(). (SZ) every field whose value "
+    "decides — by data or by control — the size a view is validated for (HEADER_LEN, PAYLOAD_LEN, PATH_TYPE, DST/SRC_ADDR_INFO, "
+    "SEG0/1/2_LEN, UDP LENGTH, SCMP TYPE; computed from the has_required_size call graphs) is written only by `unsafe fn`s. "
+    "(ESC-sib) sibling typed views agree on the safety qualifier of as_raw_mut. (REPR) every view type is repr(transparent) over "
+    "[u8] / [u8; N]. (PANIC) no undischarged panic site reachable from any constructor or any function with a view receiver "
+    "(627 functions), with a view-invariant discharge for ranges derived from the view's own layout."
+)
+RESIDUAL = [
+    "numeric correctness of the layout arithmetic for variable parts (address header and path offsets inside ScionHeaderLayout / StdPathDataLayout): sub-view ranges "
+    "computed by layout methods are covered only by the taint rule, not bounded against the validated size",
+    "the remaining unsafe primitives outside view methods (get_unchecked in layout code, from_*_unchecked sub-view creation): enumerated in the evidence, not individually discharged",
+    "termination (all loops in scope are iterator-driven: listed, not proved)",
+]
+ASSUMPTIONS = ["unchecked_bit_range_be_read/write access exactly the bytes containing the given bit range (their 16-byte lane indexing is covered by the LANE rule of C12)",
+               "encode paths are covered by the ENC contract of C03"]
 TECHNIQUE = "unsafe-discipline rules over the view types (size-field writers, unchecked accesses within the validated layout, mutable escapes), dispatch-table agreement, panic-site reachability"
 
 VIEW_TRAIT = "sciparse::core::view::View"
@@ -382,6 +405,145 @@ def payload_rules(F, R, vts):
                         R.violation("TYPED", p + "/" + c.selfty.split("::")[-1], "%s parses %s although construction validated %s on the payload" % (short(p), c.selfty.split("::")[-1], (l4 or "?").split("::")[-1]), c.span.loc)
 
 
+def size_consts(F, vts):
+    """BitRange constants whose value, read during construction of a view, flows into the size/layout that construction
+    validates (size-determining fields); constants that are only tested and rejected (VERSION) are not included"""
+    readers = {}      # accessor fn -> consts it reads from self
+    for p in F.all_body_paths("sciparse"):
+        if T.is_test_support(p):
+            continue
+        b = F.body(p)
+        for c in b.calls_to(READ):
+            r = b.origin(c.args[1])
+            if r[0] == "const":
+                readers.setdefault(p, set()).add(r[1])
+    out = {}
+    for v, h in vts.items():
+        par = F.reachable_ctx([h])
+        for f in par:
+            b = F.body(f)
+            if b is None or T.is_test_support(f) or f in readers and f not in (h,):
+                continue
+            # values flowing into what this function returns on success
+            flows = set()
+            o = b.local_origin(0)
+            flows |= tokens(o)
+            for bi in sorted(b.live_blocks()):
+                for st in b.stmts(bi):
+                    if st[0] == "=" and st[2][0] == "agg" and st[2][1][0] == "adt" and ("Layout" in st[2][1][1] or st[2][1][2] == "Ok"):
+                        flows |= tokens(b._rvalue_origin(st[2], 14, frozenset()))
+            for t in flows:
+                if t.startswith("fn:") and t[3:] in readers:
+                    for k in readers[t[3:]]:
+                        out.setdefault(k, set()).add(v.split("::")[-1])
+            # control dependence: a switch on the read value at least two of whose edges can still reach a success exit
+            # selects between layouts (SCMP message type, path type); a switch with a single surviving edge only rejects
+            oks = [bb for (bb, idx, adt, var) in T.result_variant_defs(b) if var == "Ok"]
+            for g in sorted(b.live_blocks()):
+                t = b.term(g)
+                if t[0] != "switch" or const_int(t[1]) is not None or not oks:
+                    continue
+                tk = tokens(b.origin(t[1]))
+                accs = [x[3:] for x in tk if x.startswith("fn:") and x[3:] in readers]
+                if not accs:
+                    continue
+                alive = [sx for sx in b.succ[g] if any(o in b.reach([sx]) for o in oks)]
+                if len(set(alive)) >= 2:
+                    for a in accs:
+                        for k in readers[a]:
+                            out.setdefault(k, set()).add(v.split("::")[-1])
+            # direct reads in this function flowing to the result
+            for c in b.calls_to(READ):
+                r = b.origin(c.args[1])
+                if r[0] == "const" and any(n[0] == "call" and len(n) > 5 and n[5] == c.bb and n[1] == READ for n in walk(o)):
+                    out.setdefault(r[1], set()).add(v.split("::")[-1])
+    return out
+
+
+def sz_rule(F, R, vts):
+    """SZ: a field whose value decided the size a view was validated for may only be written through an `unsafe fn`;
+    ESC-sib: conversions of sibling typed views that hand out a mutable raw view must agree on their safety qualifier"""
+    sc = size_consts(F, vts)
+    R.extra["size_determining_fields"] = {k.split("::")[-2] + "::" + k.split("::")[-1]: sorted(v) for k, v in sorted(sc.items())}
+    R.floor("SZ-fields", len(sc), 9, "size-determining layout constants (HEADER_LEN, PAYLOAD_LEN, PATH_TYPE, DST/SRC_ADDR_INFO, SEG0/1/2_LEN, UDP LENGTH, SCMP TYPE)")
+    n_unsafe = 0
+    # a size-determining field is a bit range of a buffer kind: every layout constant of the same layout module that
+    # overlaps it names the same bits (all SCMP message layouts start with TYPE at bits 0..8 of the same payload)
+    def family(k):
+        # all SCMP message layouts describe the same payload buffer from offset 0; other layouts are their own buffer kind
+        return k.rsplit("::", 2)[0] if "::payload::scmp::layout::" in k else k.rsplit("::", 1)[0]
+    fam = {}
+    for k, vs in sc.items():
+        br = F.bitrange(k)
+        if br:
+            fam.setdefault(family(k), []).append((br, k, vs))
+
+    def size_field_of(const_path):
+        br = F.bitrange(const_path)
+        if br is None:
+            return None
+        for (sbr, k, vs) in fam.get(family(const_path), ()):
+            if br[0] < sbr[1] and sbr[0] < br[1]:
+                return k
+        return None
+
+    for p, e in sorted(F.fns.items()):
+        if e["_crate"] != "sciparse" or T.is_test_support(p):
+            continue
+        b = F.body(p)
+        if b is None:
+            continue
+        for c in b.calls_to(WRITE):
+            r = b.origin(c.args[1])
+            if r[0] != "const":
+                continue
+            sk = size_field_of(r[1])
+            if sk is None:
+                continue
+            r = ("const", sk) if r[1] not in sc else r
+            if ENC.is_encode_impl(F, p) or p.endswith("::encode_unchecked"):
+                continue            # encoders write into a fresh buffer they size themselves
+            ok = bool(e.get("unsafe"))
+            n_unsafe += ok
+            R.ob("SZ", "%s writes %s: %s" % (short(p), r[1].split("::")[-1], "unsafe fn" if ok else "SAFE fn"), ok, True,
+                 {"rule": "SZ", "fn": p, "loc": c.span.loc, "field": r[1], "unsafe_fn": ok})
+            if not ok:
+                R.violation("SZ", "%s/%s" % (p, r[1].split("::")[-1]), "%s is a safe fn that writes the size-determining field %s (views validated with it: %s): safe code can "
+                            "invalidate the size a view was validated for" % (short(p), r[1].split("::")[-2] + "::" + r[1].split("::")[-1], sorted(sc[r[1]])[:3]), c.span.loc)
+    R.floor("SZ-unsafe-writers", n_unsafe, 18, "unsafe setters of size-determining fields")
+    # sibling agreement of as_raw_mut / From<&mut Typed> conversions
+    sibs = [p for p in F.fns if re.search(r"ScionPacketView::<[^>]+>::as_raw_mut$", p)]
+    quals = {p: bool(F.fns[p].get("unsafe")) for p in sibs}
+    R.extra["as_raw_mut_qualifiers"] = {short(p): ("unsafe" if q else "safe") for p, q in quals.items()}
+    if len(sibs) >= 2:
+        for p, q in quals.items():
+            ok = q or not any(quals.values())
+            R.ob("ESC-sib", "%s is %s; its siblings: %s" % (short(p), "unsafe" if q else "safe", sorted(set(quals.values()))), ok, True)
+            if not ok:
+                R.violation("ESC-sib", p, "%s hands out a mutable raw packet view from a typed view in a safe fn while its sibling conversion is `unsafe` for exactly "
+                            "that reason: through payload_mut() safe code can shrink the L4 length the typed view was validated for, and udp()/scmp() then panic" % short(p), F.loc(p))
+    else:
+        R.anchor_missing("as_raw_mut conversions of the typed packet views")
+
+
+def transmute_rule(F, R, vts):
+    """every view type is repr(transparent) over [u8] (+ PhantomData): the transmutes in the View impls are layout-preserving"""
+    n = 0
+    for v in vts:
+        adt = F.adts.get(re.sub(r"<.*$", "", v))
+        if not adt:
+            R.anchor_missing("ADT facts of " + v)
+            continue
+        n += 1
+        fields = adt["variants"][0][2]
+        non_zst = [f for f in fields if "PhantomData" not in f[1]]
+        ok = "transparent" in (adt.get("repr") or []) and len(non_zst) == 1 and (non_zst[0][1] == "[u8]" or re.fullmatch(r"\[u8; [^\]]+\]", non_zst[0][1]))
+        R.ob("REPR", "%s is #[repr(transparent)] over [u8]" % v.split("::")[-1], ok, True)
+        if not ok:
+            R.violation("REPR", v, "view type %s is not a transparent wrapper of [u8] (repr %s, fields %s): the pointer transmutes in its View impl are unsound" % (v, adt.get("repr"), fields), None)
+    R.floor("REPR", n, 18, "view types")
+
+
 def run(F, R, tier, cfg):
     vts = view_types(F)
     R.extra["view_types"] = sorted(vts)
@@ -391,6 +553,8 @@ def run(F, R, tier, cfg):
     M = accessor_rule(F, R, vts, fns)
     dispatch_rule(F, R, vts, M)
     payload_rules(F, R, vts)
+    sz_rule(F, R, vts)
+    transmute_rule(F, R, vts)
     vd = view_inv_discharge_factory(vts, M)
     PN.EXTRA_DISCHARGERS.append(vd)
     try:
